@@ -451,6 +451,13 @@ func genC14(o *cw) {
 					o.c("sel", d, "/", m, "//@"+t, "", "nametest@")
 				}
 			}
+			// prefixed and unprefixed name tests mixed in one expression
+			mixed := []string{"/books/b:book/@id", "//b:other/book", "//b:other/b:book | //book", "//b:book/@b:id | //@id", "/books/c:book/../book", "//x:book/following-sibling::book", "//p:a/b", "//p:a/a", "//q:b/p:a/b", "//a/p:b/a", "//p:a[b]/q:b", "//p:*/a"}
+			for _, s := range mixed {
+				for _, m := range maps[:4] {
+					o.c("sel", d, "/", m, s, "", "mixed-prefix")
+				}
+			}
 			for _, f := range []string{"name", "local-name", "namespace-uri"} {
 				o.c("evalall", d, "/", "-", f+"()", "", f+"()")
 				for _, arg := range []string{"*", "@*", "//b:book", "//x:book", "nonexist", "//@*", "//text()", "..", "//*[2]", "*/*"} {
@@ -697,7 +704,7 @@ func genC17(o *cw) {
 var binOps = []string{"or", "and", "=", "!=", "<", "<=", ">", ">=", "+", "-", "*", "div", "mod", "|"}
 
 func genC10(o *cw) {
-	atoms := []string{"1", "'s'", "a", "@a", "f()", "(1)", "b/c", "2.5", "//a", ".."}
+	atoms := []string{"1", "'s'", "a", "@a", "f()", "(1)", "b/c", "2.5", "//a", "..", "p:a", "b", "@q:x/c", "*", "p:*"}
 	// f() is not a known function: use true() so that compile succeeds as well
 	atoms[4] = "true()"
 	at := 0
